@@ -194,74 +194,92 @@ where
     C: std::fmt::Debug + Clone + Serialize,
     S: Strategy<Value = C>,
 {
-    let cases = ctx.share(total_cases);
-    if cases == 0 {
-        return;
-    }
-    let cfg = Config {
-        cases,
-        rng_seed: RngSeed::Fixed(ctx.lane_seed(name)),
-        failure_persistence: None,
-        max_shrink_iters: 300,
-        max_shrink_time: 0,
-        verbose: 0,
-        max_global_rejects: 100_000,
-        max_local_rejects: 100_000,
-        ..Config::default()
-    };
-    let mut runner = TestRunner::new(cfg);
-    let stats = RefCell::new(std::mem::take(&mut lr.stats));
-    let failed = Cell::new(false);
-    let known_hits: RefCell<BTreeMap<String, u64>> = RefCell::new(BTreeMap::new());
-    let harness: RefCell<Vec<String>> = RefCell::new(Vec::new());
-    let res = runner.run(&strat, |case| {
-        let mut scratch = Stats::default();
-        let r = if failed.get() { check(&case, &mut scratch) } else { check(&case, &mut stats.borrow_mut()) };
-        match r {
-            Ok(()) => Ok(()),
-            Err(Fail::Harness(m)) => {
-                let mut h = harness.borrow_mut();
-                if h.len() < 20 {
-                    h.push(format!("[{}] {}", name, m));
-                }
-                stats.borrow_mut().inconclusive += 1;
-                Ok(())
-            }
-            Err(Fail::Violation(v)) => {
-                if ctx.is_known_open(&v.signature) {
-                    if !failed.get() {
-                        *known_hits.borrow_mut().entry(v.signature.clone()).or_insert(0) += 1;
-                    }
-                    Ok(())
-                } else {
-                    failed.set(true);
-                    Err(TestCaseError::fail(v.signature))
-                }
-            }
-        }
-    });
-    lr.stats = stats.into_inner();
-    for (k, v) in known_hits.into_inner() {
-        *lr.known_hits.entry(k).or_insert(0) += v;
-    }
-    lr.harness_errors.extend(harness.into_inner());
-    match res {
-        Ok(()) => {}
-        Err(TestError::Abort(r)) => lr.harness_errors.push(format!("[{}] proptest aborted: {}", name, r)),
-        Err(TestError::Fail(reason, minimal)) => {
-            // Re-run the minimal case to obtain its message.
+    let mut remaining = ctx.share(total_cases);
+    let mut attempt = 0u64;
+    while remaining > 0 && attempt < 8 {
+        let cfg = Config {
+            cases: remaining,
+            rng_seed: RngSeed::Fixed(ctx.lane_seed(name) ^ attempt.wrapping_mul(0x5851f42d4c957f2d)),
+            failure_persistence: None,
+            max_shrink_iters: 200,
+            max_shrink_time: 0,
+            verbose: 0,
+            max_global_rejects: 100_000,
+            max_local_rejects: 100_000,
+            ..Config::default()
+        };
+        attempt += 1;
+        let mut runner = TestRunner::new(cfg);
+        let stats = RefCell::new(std::mem::take(&mut lr.stats));
+        let failed = Cell::new(false);
+        let done = Cell::new(0u32);
+        let known_hits: RefCell<BTreeMap<String, u64>> = RefCell::new(BTreeMap::new());
+        let harness: RefCell<Vec<String>> = RefCell::new(Vec::new());
+        let res = runner.run(&strat, |case| {
             let mut scratch = Stats::default();
-            let v = match check(&minimal, &mut scratch) {
-                Err(Fail::Violation(v)) => v,
-                _ => Violation {
-                    check: name.to_string(),
-                    signature: "unstable-after-shrink".into(),
-                    message: format!("the shrunk case did not fail again when re-run (last failure seen while shrinking: {}); case kept for inspection", reason),
-                    case: serde_json::to_value(&minimal).unwrap(),
-                },
-            };
-            let path = write_replay(&ctx.id, &v);
-            lr.violations.push((v, path));
+            let r = if failed.get() { check(&case, &mut scratch) } else { check(&case, &mut stats.borrow_mut()) };
+            if !failed.get() {
+                done.set(done.get() + 1);
+            }
+            match r {
+                Ok(()) => Ok(()),
+                Err(Fail::Harness(m)) => {
+                    let mut h = harness.borrow_mut();
+                    if h.len() < 20 {
+                        h.push(format!("[{}] {}", name, m));
+                    }
+                    stats.borrow_mut().inconclusive += 1;
+                    Ok(())
+                }
+                Err(Fail::Violation(v)) => {
+                    if ctx.is_known_open(&v.signature) {
+                        if !failed.get() {
+                            *known_hits.borrow_mut().entry(v.signature.clone()).or_insert(0) += 1;
+                        }
+                        Ok(())
+                    } else {
+                        failed.set(true);
+                        Err(TestCaseError::fail(v.signature))
+                    }
+                }
+            }
+        });
+        lr.stats = stats.into_inner();
+        for (k, v) in known_hits.into_inner() {
+            *lr.known_hits.entry(k).or_insert(0) += v;
+        }
+        lr.harness_errors.extend(harness.into_inner());
+        remaining = remaining.saturating_sub(done.get());
+        match res {
+            Ok(()) => return,
+            Err(TestError::Abort(r)) => {
+                lr.harness_errors.push(format!("[{}] proptest aborted: {}", name, r));
+                return;
+            }
+            Err(TestError::Fail(reason, minimal)) => {
+                // The shrunk case has to fail again, from scratch, to count.
+                let mut confirmed = None;
+                for _ in 0..3 {
+                    let mut scratch = Stats::default();
+                    if let Err(Fail::Violation(v)) = check(&minimal, &mut scratch) {
+                        if !ctx.is_known_open(&v.signature) {
+                            confirmed = Some(v);
+                            break;
+                        }
+                    }
+                }
+                match confirmed {
+                    Some(v) => {
+                        let path = write_replay(&ctx.id, &v);
+                        lr.violations.push((v, path));
+                        return;
+                    }
+                    None => {
+                        lr.stats.count("unconfirmed_transient_failures", 1);
+                        lr.notes.push(format!("[{}] a failure ({}) did not reproduce on its shrunk case and was dropped; search continued", name, reason));
+                    }
+                }
+            }
         }
     }
 }
